@@ -7,8 +7,8 @@ import (
 	"os"
 	"runtime"
 	"runtime/debug"
-	"time"
 	"sort"
+	"time"
 )
 
 // Witness is what a violation (or a sampled case) leaves behind.
